@@ -6,7 +6,7 @@ from hypothesis import strategies as st
 import parso
 from parso.python.tokenize import tokenize
 
-from ..common import VERSIONS, crash_signature, digest, first_tree_diff, grammar, has_error, short
+from ..common import VERSIONS, case_int, disturb, crash_signature, digest, first_tree_diff, grammar, has_error, short
 from ..engine import Outcome, Prop
 from ..gen import deriv as D
 from ..gen import text as T
@@ -61,6 +61,8 @@ def build(case):
 def judge(v, start, tree, text, intended):
     """Returns (fail, precondition_ok)."""
     g = grammar(v)
+    # process history: an earlier call that was abandoned or aborted (see common.disturb) must not influence this one
+    disturb(g, case_int(v, text))
     try:
         ok = tokenizes_as_intended(g, text, intended)
     except RecursionError:
